@@ -7,6 +7,7 @@ import (
 
 	sdkmath "cosmossdk.io/math"
 	sdk "github.com/cosmos/cosmos-sdk/types"
+	distrtypes "github.com/cosmos/cosmos-sdk/x/distribution/types"
 
 	coinswaptypes "mods.irisnet.org/modules/coinswap/types"
 	"mods.irisnet.org/modules/farm"
@@ -73,10 +74,24 @@ func (m *fmMod) setup(e *lib.Env) {
 	if !out.OK() {
 		panic("farm setup: " + out.Err)
 	}
+	// community pool funds for MsgCreatePoolWithCommunityPool
+	amt := sdkmath.NewInt(1000000000)
+	out = e.Deliver(&distrtypes.MsgFundCommunityPool{Amount: sdk.NewCoins(sdk.NewCoin("btc", amt), sdk.NewCoin("eth", amt), sdk.NewCoin("usdt", amt)),
+		Depositor: e.Actors[2].String()})
+	if !out.OK() {
+		panic("farm setup (community pool): " + out.Err)
+	}
 }
 func (m *fmMod) initGenesis(e *lib.Env) lib.Outcome {
 	gs := farmtypes.GenesisState{Params: fmGo(m.p), Sequence: m.k[e].GetSequence(e.Ctx)}
 	return e.Try(func(ctx sdk.Context) error { farm.InitGenesis(ctx, *m.k[e], gs); return nil })
+}
+func (m *fmMod) genesisStages(e *lib.Env) (int, int) {
+	gs := farmtypes.GenesisState{Params: fmGo(m.p), Sequence: m.k[e].GetSequence(e.Ctx)}
+	vg, _ := errCode(func() error { return farmtypes.ValidateGenesis(gs) })
+	cctx, _ := e.Ctx.CacheContext()
+	sp, _ := errCode(func() error { return m.k[e].SetParams(cctx, gs.Params) })
+	return vg, sp
 }
 func (m *fmMod) stored(e *lib.Env) string { return fmTerm(m.k[e].GetParams(e.Ctx)) }
 
@@ -111,6 +126,28 @@ func (m *fmMod) op(e *lib.Env, st Step) (string, lib.Outcome) {
 		return "FmOther", e.Deliver(&farmtypes.MsgUnstake{PoolId: poolID, Amount: sdk.NewCoin("lpt-1", n(0)), Sender: a0.String()})
 	case "harvest":
 		return "FmOther", e.Deliver(&farmtypes.MsgHarvest{PoolId: poolID, Sender: a0.String()})
+	case "create_cp": // MsgCreatePoolWithCommunityPool: N = [ncat]; self-bonded funds only, so that only the category limit can reject
+		ncat := int(n(0).Int64())
+		var bond, applied, per sdk.Coins
+		for i := 0; i < ncat; i++ {
+			if i == 0 { // the first category comes from the community pool, the others are bonded by the proposer
+				applied = applied.Add(sdk.NewCoin(fmRewardDenoms[i], sdkmath.NewInt(100000)))
+			} else {
+				bond = bond.Add(sdk.NewCoin(fmRewardDenoms[i], sdkmath.NewInt(100000)))
+			}
+			per = per.Add(sdk.NewCoin(fmRewardDenoms[i], sdkmath.NewInt(10)))
+		}
+		term := lib.App("FmCreateCP", lib.Z(int64(ncat)))
+		if uint32(ncat) <= k.GetParams(e.Ctx).MaxRewardCategories {
+			// beyond the category limit the handler sends to the module account "escrow_collector", which the repo's
+			// SimApp does not register (panic of the bank keeper under EVERY parameter set): not executed
+			return "FmOther", lib.Outcome{Kind: "rej", Err: "skipped: escrow_collector is not a module account of the SimApp"}
+		}
+		out := e.Deliver(&farmtypes.MsgCreatePoolWithCommunityPool{
+			Content: farmtypes.CommunityPoolCreateFarmProposal{Title: "farm", Description: "community farm", PoolDescription: "p", LptDenom: "lpt-1",
+				RewardPerBlock: per, FundApplied: applied, FundSelfBond: bond},
+			InitialDeposit: sdk.NewCoins(sdk.NewCoin("stake", sdkmath.NewInt(1000))), Proposer: a0.String()})
+		return term, out
 	case "adjust": // not modelled (FmOther): only the abort clause applies
 		return "FmOther", e.Deliver(&farmtypes.MsgAdjustPool{PoolId: poolID, AdditionalReward: sdk.NewCoins(sdk.NewCoin("btc", n(0))),
 			RewardPerBlock: sdk.NewCoins(sdk.NewCoin("btc", n(1))), Creator: a0.String()})
@@ -164,6 +201,7 @@ func genFM(r *lib.Rand, h *History, i int) {
 		h.Steps = []Step{{"create_pool", []string{"1", amt(100000, 1000000), amt(1, 1000)}}, {"stake", []string{amt(1, 1000000)}},
 			{"blocks", []string{"2"}}, {"harvest", nil}, {"create_pool", []string{"2", amt(100000, 1000000), amt(1, 1000)}},
 			{"create_pool", []string{"3", amt(100000, 1000000), amt(1, 1000)}}, {"unstake", []string{amt(1, 1000)}},
+			{"create_cp", []string{"1"}}, {"create_cp", []string{"2"}}, {"create_cp", []string{"3"}},
 			{"adjust", []string{amt(1, 100000), amt(1, 1000)}}, {"destroy", nil}}
 		return
 	}
@@ -190,7 +228,11 @@ func genFM(r *lib.Rand, h *History, i int) {
 	for i := 0; i < n; i++ {
 		switch r.Weighted(2, 3, 2, 2, 2, 1, 1) {
 		case 5:
-			h.Steps = append(h.Steps, Step{"adjust", []string{amt(1, 100000), amt(1, 1000)}})
+			if r.Chance(1, 2) {
+				h.Steps = append(h.Steps, Step{"create_cp", []string{amt(1, 3)}})
+			} else {
+				h.Steps = append(h.Steps, Step{"adjust", []string{amt(1, 100000), amt(1, 1000)}})
+			}
 		case 6:
 			h.Steps = append(h.Steps, Step{"destroy", nil})
 		case 0:
